@@ -1,18 +1,30 @@
-"""Apply a patch to /repo, run the given property checks, and undo the patch (always).
+"""Apply a patch to a scratch copy of /repo's sources (outside /repo and /verif; /repo itself is never
+touched, so concurrent runs do not see each other), run the given property checks on the copy, remove it.
 python3 nv/trypatch.py <patch.diff> <C05> [<C06> ...]   — prints one line per property."""
 import os
+import shutil
 import subprocess
 import sys
+import tempfile
 
-patch = sys.argv[1]
+patch = os.path.abspath(sys.argv[1])
 props = sys.argv[2:]
-subprocess.check_call(['git', '-C', '/repo', 'apply', '--whitespace=nowarn', patch])
+tmp = tempfile.mkdtemp(prefix='nvtry-')
 try:
-    for p in props:
-        r = subprocess.run([sys.executable, '/verif/nv/check.py', p], stdout=subprocess.PIPE,
-                           env=dict(os.environ, NV_EVIDENCE='/tmp/nv-try-evidence'),
+    os.makedirs(os.path.join(tmp, 'repo'))
+    shutil.copytree('/repo/src', os.path.join(tmp, 'repo', 'src'))
+    shutil.copy('/repo/CMakeLists.txt', os.path.join(tmp, 'repo', 'CMakeLists.txt'))
+    p = subprocess.run(['patch', '-p1', '--fuzz=3', '-s', '-i', patch], cwd=os.path.join(tmp, 'repo'),
+                       stdout=subprocess.PIPE, stderr=subprocess.STDOUT, text=True)
+    if p.returncode != 0:
+        print('patch does not apply: ' + p.stdout[-300:])
+        sys.exit(2)
+    env = dict(os.environ, NV_REPO=os.path.join(tmp, 'repo'), NV_CACHE=os.path.join(tmp, 'cache'),
+               NV_EVIDENCE=os.path.join(tmp, 'evidence'))
+    for pid in props:
+        r = subprocess.run([sys.executable, '/verif/nv/check.py', pid], stdout=subprocess.PIPE, env=env,
                            stderr=subprocess.STDOUT, text=True)
         lines = [l for l in r.stdout.splitlines() if not l.startswith(('VIOLATION', 'KNOWN-FINDING', 'OK ', '    witness'))]
-        print('%s rc=%d %s' % (p, r.returncode, ' | '.join(lines[:4])[:700]))
+        print('%s rc=%d %s' % (pid, r.returncode, ' | '.join(lines[:4])[:700]))
 finally:
-    subprocess.check_call(['git', '-C', '/repo', 'checkout', '--', '.'])
+    shutil.rmtree(tmp, ignore_errors=True)
